@@ -291,6 +291,86 @@ theorem stale_factor_counterexample :
      (arithO Discipline.current .add o (.bare true [.int 1])).toOption.map (·.ps) = some [5 + 10^12]) := by
   decide
 
+
+/-! ### failure paths (round 2, class L7) -/
+
+/-- GENERATED obligation (`Generated/C01Fail.lean`, re-checked against the current source on every run): in
+`convert_unit` no attribute is written before something that can still raise (the table look-up with the argument,
+a guarded `raise`), the constructor never writes to its `data` argument, and the only methods that write the two
+attributes of `self` are `__array_finalize__` and `convert_unit` -/
+theorem generated_failure_paths_atomic :
+    FailDiscipline.current.atomicAll = true ∧ FailDiscipline.currentUniform.atomicAll = true ∧
+    Generated.C01Fail.timeArrayAttrWriters = ["__array_finalize__", "convert_unit"] ∧
+    Generated.C01Fail.uniformAttrWriters = ["__array_finalize__"] := by
+  decide
+
+/-- the two generated views of `convert_unit` agree: for every unit name the events write both attributes and do not
+raise — label = the argument, factor = the table's factor of it (what the return-path table `convertUnit` says) -/
+theorem convert_events_agree_with_path (u : TimeUnit) (st : RawAttrs) :
+    execEvents FailDiscipline.current.convertEvents (.unit u) st = (⟨some u, factor u⟩, false) ∧
+    (execEvents FailDiscipline.current.convertEvents .bogus st).2 = true := by
+  constructor
+  · cases u <;> rfl
+  · rfl
+
+/-- REFUSED CALLS LEAVE OBJECTS UNCHANGED, for every history.  Under any failure discipline with the generated
+side condition (`atomicAll`: no write before a possible raise; the constructor does not touch its argument) and for
+covered steps (a refused method is not one of the attribute writers):
+ (1) a refused `convert_unit(None | 'bogus' | …)`, a refused constructor call on the object, a refused operator /
+     reduction / lookup leaves label AND factor as they were, and the history goes on with the very same object;
+ (2) whether a call is refused depends on the argument only;
+ (3) any history with refused calls anywhere in it ends with the object the accepted calls alone produce;
+ (4) every object of such a history still has `factor = factor_of(label)` — so bare numbers are read in the unit the
+     object reports (`history_reads_in_own_unit`), also right after a refusal. -/
+theorem refused_steps_leave_objects_unchanged (D : Discipline) (F : FailDiscipline) (hF : F.atomicAll = true) :
+    (∀ (o : TObj) (b : BadStep), (HStep.bad b).covered F = true → (stepBad D F o b).refused = true →
+      (stepBad D F o b).raw = o.attrs.raw ∧ (stepBad D F o b).next = some o) ∧
+    (∀ (a : UnitArg) (st st' : RawAttrs), (execEvents F.convertEvents a st).2 = (execEvents F.convertEvents a st').2) ∧
+    (∀ (o : TObj) (hs : List HStep), (∀ h ∈ hs, h.covered F = true) →
+      curX D F o hs = cur D o (hs.filterMap (HStep.accepted? F))) ∧
+    (D.consistent = true → ∀ (o : TObj), o.attrs.fac = factor o.attrs.label → ∀ (hs : List HStep),
+      (∀ h ∈ hs, h.covered F = true) → ∀ o' ∈ traceX D F o hs, o'.attrs.fac = factor o'.attrs.label) :=
+  ⟨fun o b hc hr => stepBad_refused D hF o b hc hr,
+   fun a st st' => execEvents_raised_indep _ a st st',
+   fun o hs hc => curX_eq_cur D hF o hs hc,
+   fun hD o h hs hc => traceX_inv hD hF o h hs hc⟩
+
+/-- … for today's source -/
+theorem refused_steps_leave_objects_unchanged_current (src : TVal) (hs : List HStep)
+    (hc : ∀ h ∈ hs, h.covered FailDiscipline.current = true) :
+    curX Discipline.current FailDiscipline.current (TObj.ofTVal src) hs =
+      cur Discipline.current (TObj.ofTVal src) (hs.filterMap (HStep.accepted? FailDiscipline.current)) ∧
+    ∀ o' ∈ traceX Discipline.current FailDiscipline.current (TObj.ofTVal src) hs, o'.attrs.fac = factor o'.attrs.label :=
+  ⟨curX_eq_cur _ generated_failure_paths_atomic.1 _ hs hc,
+   traceX_inv generated_discipline_consistent.1 generated_failure_paths_atomic.1 _ (show (TObj.ofTVal src).attrs.fac = _ from rfl) hs hc⟩
+
+/-- validate-after-write (`factor` assigned inside the `try`, `None` refused afterwards, label written last) -/
+def FailDiscipline.validateLate : FailDiscipline :=
+  { FailDiscipline.current with convertEvents := [.lookup, .writeFactor, .raiseIfNone, .writeLabel] }
+
+/-- label written before the look-up that raises for an invalid unit -/
+def FailDiscipline.labelFirst : FailDiscipline :=
+  { FailDiscipline.current with convertEvents := [.writeLabel, .lookup, .writeFactor] }
+
+/-- COUNTEREXAMPLES (partial updates).  `validateLate`: not atomic; `t_ms.convert_unit(None)` is refused, the object
+still says `ms` but its factor is 10¹² — `t + 1` adds 10¹² ps (a second, not a millisecond).  `labelFirst`: not atomic;
+a refused `convert_unit('bogus')` leaves an object whose label names no unit.  With today's events both calls leave
+(ms, 10⁹) and `t + 1` adds 10⁹ ps. -/
+theorem partial_update_counterexample :
+    (let o : TObj := ⟨[0, 5], false, ⟨.ms, factor .ms⟩⟩
+     FailDiscipline.validateLate.atomicAll = false ∧
+     (let out := stepBad Discipline.current FailDiscipline.validateLate o (.conv .none)
+      out.refused = true ∧ out.raw = ⟨some .ms, 10^12⟩ ∧
+      (out.next.bind fun o' => (arithO Discipline.current .add o' (.bare true [.int 1])).toOption.map (·.ps)) = some [10^12, 5 + 10^12]) ∧
+     FailDiscipline.labelFirst.atomicAll = false ∧
+     (let out := stepBad Discipline.current FailDiscipline.labelFirst o (.conv .bogus)
+      out.refused = true ∧ out.raw = ⟨none, 10^9⟩ ∧ out.next = none) ∧
+     (∀ a ∈ [UnitArg.bogus],
+      let out := stepBad Discipline.current FailDiscipline.current o (.conv a)
+      out.refused = true ∧ out.raw = ⟨some .ms, 10^9⟩ ∧
+      (out.next.bind fun o' => (arithO Discipline.current .add o' (.bare true [.int 1])).toOption.map (·.ps)) = some [10^9, 5 + 10^9])) := by
+  decide
+
 /-! non-vacuity: concrete non-trivial states meeting the hypotheses -/
 example : toPs .m (.flt (11/5)) = 132000000000000 := by decide +kernel
 example : toPs .s (.int 3) = toPs .ms (.int 3000) := (unit_ladder 3).1 ▸ rfl
@@ -302,5 +382,10 @@ example : (trace Discipline.current (TObj.ofTVal ⟨[1, 2, 3], .ms, false⟩)
       (fun o => (o.ps, o.attrs.label, o.attrs.fac)) =
     [([1, 2, 3], .ms, 10^9), ([1, 2, 3], .s, 10^12), ([1, 3], .s, 10^12), ([1, 3], .us, 10^6), ([4], .us, 10^6),
      ([2000004], .us, 10^6)] := by decide
+
+example : (runX Discipline.current FailDiscipline.current (TObj.ofTVal ⟨[1, 2], .ms, false⟩)
+    [.bad (.conv .bogus), .bad (.wrap .bogus), .ok (.conv .us), .bad (.call "max"), .ok (.view (.item 1))]).1 =
+    ["T:ms:0:1,2~1000000000", "T:ms:0:1,2~1000000000", "T:ms:0:1,2~1000000000", "T:us:0:1,2~1000000", "T:us:0:1,2~1000000",
+     "T:us:1:2~1000000"] := by decide
 
 end Nitime.C01.Props
